@@ -298,6 +298,7 @@ func localDestinations(pk interface{}, fd *ast.FuncDecl, vname string) map[strin
 // c05errors: error discipline on SSA.
 func c05errors(c *Ctx, p *load.Program, pkgPath, prefix string) {
 	R := c.R
+	c05marshalTotal(c, p, pkgPath, prefix)
 	um := must(p.Func(pkgPath, "Unmarshal"), "vaa.Unmarshal")
 	var accept []*ssa.Return
 	eachInstr(um, func(i ssa.Instruction) {
@@ -364,6 +365,60 @@ func c05errors(c *Ctx, p *load.Program, pkgPath, prefix string) {
 				"some accepted path skips the assignment of "+fld.Name()+" (it keeps its zero value for some inputs, so decode(encode(v)) differs from v and re-encodes to different bytes)")
 		}
 		R.Floor(prefix+".mirror.assigned", nf, 11)
+	}
+	// nothing re-arranges the decoded value afterwards: the result and its fields are not handed to
+	// any function (sorting the signatures "into canonical order", normalising a field …) — what
+	// Unmarshal returns is what the bytes say, so that it re-encodes to the same bytes
+	if vAlloc := c05resultAlloc(um); vAlloc != nil {
+		npost := 0
+		eachInstr(um, func(i ssa.Instruction) {
+			ci, ok := i.(ssa.CallInstruction)
+			if !ok {
+				return
+			}
+			name := facts.CalleeName(ci.Common())
+			if name == "encoding/binary.Read" || strings.HasPrefix(name, "fmt.") || name == "len" || name == "cap" {
+				return
+			}
+			for _, a := range ci.Common().Args {
+				v := strip(a)
+				// (the variable may live in a cell when a closure captures it)
+				isV := func(x ssa.Value) bool {
+					if x == ssa.Value(vAlloc) || resolveSpill(x) == ssa.Value(vAlloc) {
+						return true
+					}
+					if cell, ok := x.(*ssa.Alloc); ok && cell.Referrers() != nil {
+						for _, r := range *cell.Referrers() {
+							if st, ok := r.(*ssa.Store); ok && st.Addr == ssa.Value(cell) && st.Val == ssa.Value(vAlloc) {
+								return true
+							}
+						}
+					}
+					return false
+				}
+				touches := isV(v)
+				if u, isLd := v.(*ssa.UnOp); isLd {
+					if fa, isFa := u.X.(*ssa.FieldAddr); isFa && isV(fa.X) {
+						touches = true
+					}
+				}
+				if mc, isMC := v.(*ssa.MakeClosure); isMC {
+					for _, b := range mc.Bindings {
+						if isV(b) {
+							touches = true
+						}
+					}
+				}
+				if touches {
+					npost++
+					R.Check(prefix+".mirror", R.Key(prefix+".mirror", "Unmarshal", "post-processing:"+name), c.rel(p.Pos(instrPos(i))), "the decoded VAA is not re-arranged after decoding", false,
+						"the decoded value (or one of its fields) is passed to "+name+": if that changes it (sorting, normalising), accepted bytes no longer re-encode to themselves")
+				}
+			}
+		})
+		R.Count("unmarshal_post_processing_calls", npost)
+	} else {
+		R.Fail(prefix+".mirror", prefix+".mirror/Unmarshal/result", c.rel(p.Pos(um.Pos())), "the VAA returned by Unmarshal", "undecided: the accepted return does not yield a locally built VAA")
 	}
 	fs := facts.At(acc, nil)
 	loops := facts.LoopsOf(um)
@@ -446,4 +501,44 @@ func c05errors(c *Ctx, p *load.Program, pkgPath, prefix string) {
 		}
 		R.Check(prefix+".errors", R.Key(prefix+".errors", "Unmarshal", "makeslice"), c.rel(p.Pos(ms.Pos())), "allocation size is constant, type-bounded (<=65535) or bounded by the input length", good, "size = "+how)
 	})
+}
+
+// c05resultAlloc: the VAA that Unmarshal fills in and returns.
+func c05resultAlloc(um *ssa.Function) *ssa.Alloc {
+	var out *ssa.Alloc
+	eachInstr(um, func(i ssa.Instruction) {
+		if r, ok := i.(*ssa.Return); ok && len(r.Results) == 2 {
+			if al, ok := resolveSpill(r.Results[0]).(*ssa.Alloc); ok {
+				out = al
+			}
+		}
+	})
+	return out
+}
+
+// c05marshalTotal: Marshal fails only for a VAA the format cannot hold (more than 255 signatures).
+func c05marshalTotal(c *Ctx, p *load.Program, pkgPath, prefix string) {
+	R := c.R
+	mf := must(p.Method(pkgPath, "VAA", "Marshal"), "vaa.(*VAA).Marshal")
+	n := 0
+	eachInstr(mf, func(i ssa.Instruction) {
+		r, ok := i.(*ssa.Return)
+		if !ok || len(r.Results) != 2 || r.Block().Comment == "recover" {
+			return
+		}
+		n++
+		if isNilConst(r.Results[1]) {
+			return
+		}
+		fs := facts.Atoms(acceptFacts(r))
+		okRej := false
+		for _, at := range fs {
+			if at == "255 < len(v.Signatures)" || at == "256 <= len(v.Signatures)" {
+				okRej = true
+			}
+		}
+		R.Check(prefix+".mirror", R.Key(prefix+".mirror", "Marshal", "error-return"), c.rel(p.Pos(instrPos(r))), "Marshal refuses a VAA only when it has more than 255 signatures (the count is one byte)", okRej,
+			"an encodable VAA is refused under facts "+strings.Join(fs, "; "))
+	})
+	R.Floor(prefix+".mirror.marshal-returns", n, 1)
 }
